@@ -99,22 +99,60 @@ theorem optStem_of_noUserinfo {n : Str} (h : noUserinfo n = true) :
     | none => rfl
     | some x => simp [hw] at h; simp [optStem, strStem, h.2]
 
-/-- **the prefix order on cleaned stems, group by group** (`u` without userinfo): same scheme,
+/-! ## the same for any reading of the path segments -/
+
+/-- the path stems of a list of segments -/
+def segStems (segs : List Str) : List TStem := segs.map (fun e => ('p', e))
+
+/-- the stems of a URL as pairs, the path read through `segs` (`cleanSegs`: `keyStems`;
+`rawSegs`: `lruStemsT` itself) -/
+def keyStemsG (segs : Str → List Str) (sa : Bool) (p : Parts) : List TStem :=
+  strStem 's' p.scheme ++ (portStems (portSplit (hostportOf p.netloc)) ++
+    (hostStems sp sa p.netloc ((portSplit (hostportOf p.netloc)).headD []) ++ (segStems (segs p.path) ++
+    (strStem 'q' p.query ++ (strStem 'f' p.fragment ++
+    (optStem 'u' (userOf p.netloc) ++ optStem 'w' (passwordOf p.netloc)))))))
+
+theorem keyStems_eq_G (sa : Bool) (p : Parts) : keyStems sp sa p = keyStemsG sp cleanSegs sa p := rfl
+
+/-- the stems `lru_stems` emits, as they are -/
+theorem lruStemsT_eq_G (sa : Bool) (p : Parts) : lruStemsT sp sa p = keyStemsG sp rawSegs sa p := by
+  rw [lruStemsT_groups]; rfl
+
+theorem segStems_eq_iff (a b : List Str) : segStems a = segStems b ↔ a = b := by
+  unfold segStems
+  constructor
+  · intro h
+    have := congrArg (List.map (·.2)) h
+    simpa [List.map_map, Function.comp_def] using this
+  · intro h; rw [h]
+
+theorem segStems_prefix_iff (a b : List Str) : segStems a <+: segStems b ↔ a <+: b :=
+  map_prefix_of_injective _ (fun x y h => by simpa using h)
+
+theorem segStems_eq_nil_iff (a : List Str) : segStems a = [] ↔ a = [] := by
+  simp [segStems]
+
+theorem tag_segStems {l : List Str} {t : TStem} (h : t ∈ segStems l) : t.1 = 'p' := by
+  simp only [segStems, List.mem_map] at h
+  obtain ⟨l, _, rfl⟩ := h; rfl
+
+/-- **the prefix order on stems, group by group** (`u` without userinfo), for any reading `segs`
+of the path segments (`cleanSegs`: empty path stems aside; `rawSegs`: the stems as emitted): same scheme,
 same port, then host / path / query / fragment may each be extended only when everything after
 it is absent from `u` -/
-theorem keyStems_prefix_iff (sa : Bool) (u v : Parts) (hu : noUserinfo u.netloc = true)
+theorem keyStemsG_prefix_iff (segs : Str → List Str) (sa : Bool) (u v : Parts) (hu : noUserinfo u.netloc = true)
     (hwu : wfNetloc u.netloc = true) (hwv : wfNetloc v.netloc = true) :
-    keyStems sp sa u <+: keyStems sp sa v ↔
+    keyStemsG sp segs sa u <+: keyStemsG sp segs sa v ↔
       u.scheme = v.scheme ∧ specPort u.netloc = specPort v.netloc ∧
       ((hostStems sp sa u.netloc (specHost u.netloc) = hostStems sp sa v.netloc (specHost v.netloc) ∧
-          ((cleanSegs u.path = cleanSegs v.path ∧
+          ((segs u.path = segs v.path ∧
               ((u.query = v.query ∧ (u.fragment = [] ∨ u.fragment = v.fragment)) ∨
                (u.fragment = [] ∧ (u.query = [] ∨ u.query = v.query)))) ∨
-           (u.query = [] ∧ u.fragment = [] ∧ cleanSegs u.path <+: cleanSegs v.path))) ∨
-       (cleanSegs u.path = [] ∧ u.query = [] ∧ u.fragment = [] ∧
+           (u.query = [] ∧ u.fragment = [] ∧ segs u.path <+: segs v.path))) ∨
+       (segs u.path = [] ∧ u.query = [] ∧ u.fragment = [] ∧
           hostStems sp sa u.netloc (specHost u.netloc) <+: hostStems sp sa v.netloc (specHost v.netloc))) := by
   obtain ⟨hU, hW⟩ := optStem_of_noUserinfo hu
-  unfold keyStems
+  unfold keyStemsG
   rw [hU, hW, portSplit_wf hwu, portSplit_wf hwv]
   simp only [List.headD_cons, List.append_nil]
   -- tags of the tails
@@ -123,7 +161,7 @@ theorem keyStems_prefix_iff (sa : Bool) (u v : Parts) (hu : noUserinfo u.netloc 
   have tF : ∀ (x : Str) t, t ∈ strStem 'f' x → t.1 = 'f' := fun _ _ h => tag_strStem h
   have tT : ∀ (l : List Str) t, t ∈ portStems l → t.1 = 't' := fun _ _ h => tag_portStems h
   have tH : ∀ n h0 t, t ∈ hostStems sp sa n h0 → t.1 = 'h' := fun _ _ _ h => tag_hostStems sp h
-  have tP : ∀ (x : Str) t, t ∈ cleanPathStems x → t.1 = 'p' := fun _ _ h => tag_cleanPathStems h
+  have tP : ∀ (x : Str) t, t ∈ segStems (segs x) → t.1 = 'p' := fun _ _ h => tag_segStems h
   have tU : ∀ t, t ∈ optStem 'u' (userOf v.netloc) → t.1 = 'u' := fun _ h => tag_optStem h
   have tW : ∀ t, t ∈ optStem 'w' (passwordOf v.netloc) → t.1 = 'w' := fun _ h => tag_optStem h
   have hHne : hostStems sp sa u.netloc (specHost u.netloc) ≠ [] := by
@@ -220,7 +258,22 @@ theorem keyStems_prefix_iff (sa : Bool) (u v : Parts) (hu : noUserinfo u.netloc 
       · exact h
     · intro h; exact Or.inr ⟨trivial, h⟩
   simp only [hF, strStem_eq_iff, strStem_prefix_iff, strStem_eq_nil_iff, portStems_eq_iff,
-    cleanPathStems_eq_iff, cleanPathStems_prefix_iff, cleanPathStems_eq_nil_iff,
+    segStems_eq_iff, segStems_prefix_iff, segStems_eq_nil_iff,
     List.append_eq_nil_iff, hHne, false_and, and_false, or_false, and_assoc]
+
+/-- the cleaned reading (`clean_trailing_path` on both sides) -/
+theorem keyStems_prefix_iff (sa : Bool) (u v : Parts) (hu : noUserinfo u.netloc = true)
+    (hwu : wfNetloc u.netloc = true) (hwv : wfNetloc v.netloc = true) :
+    keyStems sp sa u <+: keyStems sp sa v ↔
+      u.scheme = v.scheme ∧ specPort u.netloc = specPort v.netloc ∧
+      ((hostStems sp sa u.netloc (specHost u.netloc) = hostStems sp sa v.netloc (specHost v.netloc) ∧
+          ((cleanSegs u.path = cleanSegs v.path ∧
+              ((u.query = v.query ∧ (u.fragment = [] ∨ u.fragment = v.fragment)) ∨
+               (u.fragment = [] ∧ (u.query = [] ∨ u.query = v.query)))) ∨
+           (u.query = [] ∧ u.fragment = [] ∧ cleanSegs u.path <+: cleanSegs v.path))) ∨
+       (cleanSegs u.path = [] ∧ u.query = [] ∧ u.fragment = [] ∧
+          hostStems sp sa u.netloc (specHost u.netloc) <+: hostStems sp sa v.netloc (specHost v.netloc))) := by
+  rw [keyStems_eq_G, keyStems_eq_G]
+  exact keyStemsG_prefix_iff sp cleanSegs sa u v hu hwu hwv
 
 end Ural.Lru
